@@ -425,7 +425,7 @@ func checkC19(c *chk.Ctx) {
 		add(pr.fi, p.note, map[string]any{"event": "Probe", "what": "value", "kind": fc.rc.Kind, "card": fc.field.Card, "rules": rules, "pos": p.pos,
 			"schemaAccepts": valid[id], "int64AsString": is64(fc.rc.Kind) && fc.rc.Enc != "int64_number", "bigBound": fc.bigB, "format": "json",
 			"numericLooking": fc.rc.Rule == "in_numeric_looking",
-			"required": false, "listed": false, "published": ""})
+			"required":       false, "listed": false, "published": ""})
 	}
 	for fi, fc := range fcs {
 		ms, fs := fieldSchema(fc)
